@@ -162,3 +162,4 @@ reg('C10', 'replace_cache', 'rule_sibling_splice')   # replay streams rope(): it
 reg('C04', 'replace_cache', 'rule_sibling_splice')
 reg('C07', 'caches', 'rule_memo')                    # a memoised view has one meaning: all initialisers of a cell agree
 reg('C12', 'bounds', 'rule_decoder_width')
+reg('C17', 'bounds', 'rule_position_add', ('dev',))
